@@ -1,0 +1,77 @@
+/*
+ * Verification hook (only compiled with `--cfg scrut_verif`): a clock for the
+ * stateful executor that is the real clock unless a harness installs a virtual
+ * one for the current thread. Lets a model checker own the passage of time.
+ */
+
+use std::cell::Cell;
+use std::ops::Add;
+use std::time::Duration;
+
+thread_local! {
+    static VIRTUAL_NOW: Cell<Option<Duration>> = const { Cell::new(None) };
+}
+
+/// Install (Some) or remove (None) the virtual clock of this thread
+pub fn set_virtual_now(now: Option<Duration>) {
+    VIRTUAL_NOW.with(|v| v.set(now));
+}
+
+/// The virtual time of this thread, if a virtual clock is installed
+pub fn virtual_now() -> Option<Duration> {
+    VIRTUAL_NOW.with(|v| v.get())
+}
+
+/// Let virtual time pass (no-op without virtual clock)
+pub fn advance(duration: Duration) {
+    VIRTUAL_NOW.with(|v| {
+        if let Some(now) = v.get() {
+            v.set(Some(now + duration));
+        }
+    });
+}
+
+/// Drop-in for the parts of [`std::time::Instant`] the executor uses
+#[derive(Clone, Copy, Debug, PartialEq, PartialOrd)]
+pub enum Instant {
+    Real(std::time::Instant),
+    Virtual(Duration),
+}
+
+impl Instant {
+    pub fn now() -> Self {
+        match virtual_now() {
+            Some(now) => Instant::Virtual(now),
+            None => Instant::Real(std::time::Instant::now()),
+        }
+    }
+
+    /// Saturating, like [`std::time::Instant::duration_since`]
+    pub fn duration_since(&self, earlier: Instant) -> Duration {
+        match (self, earlier) {
+            (Instant::Real(a), Instant::Real(b)) => a.duration_since(b),
+            (Instant::Virtual(a), Instant::Virtual(b)) => a.saturating_sub(b),
+            _ => Duration::ZERO,
+        }
+    }
+}
+
+impl Add<Duration> for Instant {
+    type Output = Instant;
+
+    fn add(self, rhs: Duration) -> Instant {
+        match self {
+            Instant::Real(a) => Instant::Real(a + rhs),
+            Instant::Virtual(a) => Instant::Virtual(a + rhs),
+        }
+    }
+}
+
+/// Sleeps for real, or lets virtual time pass
+pub fn sleep(duration: Duration) {
+    if virtual_now().is_some() {
+        advance(duration);
+    } else {
+        std::thread::sleep(duration);
+    }
+}
